@@ -100,9 +100,9 @@ Definition term (ty : N) : Prop := ends_term ty = true.      (* the last item en
 Definition anyty (ty : N) : Prop := True.
 Definition anys (s : bstr) : Prop := True.
 
-(* what follows a printed (sub)expression: end of input, a space, ) ] , : | or } *)
+(* what follows a printed (sub)expression: end of input, a space, ) ] , : | } or the "/" of a self-closing tag's "/}" *)
 Definition fexp (s : bstr) : Prop :=
-  match s with [] => True | c :: _ => (c = 32 \/ c = 41 \/ c = 93 \/ c = 44 \/ c = 58 \/ c = 124 \/ c = 125)%N end.
+  match s with [] => True | c :: _ => (c = 32 \/ c = 41 \/ c = 93 \/ c = 44 \/ c = 58 \/ c = 124 \/ c = 125 \/ c = 47)%N end.
 
 Lemma fexp_stops s : fexp s -> stops s.
 Proof. destruct s as [|c s]; cbn; [auto|]. intros H. unfold alnum_b, letter_b, digit_b. lia. Qed.
